@@ -148,106 +148,6 @@ Proof.
     + rewrite exp_0. field. lra.
 Qed.
 
-(* ------------------------------------------------------------------ nll VJP (one row; the output is one number) *)
-Lemma nll_vjp_proof : forall n x (y : nat) (g : R) i, (i < n)%nat -> (y < n)%nat ->
-  is_derive (fun t => g * nll_loss_out n (vpert x i t) y) 0 (nll_loss_grad_y_pred n x y g i).
-Proof.
-  intros n x y g i Hi Hy.
-  unfold nll_loss_out, nll_loss_grad_y_pred, nll_loss_forward, nll_loss_backward, vpert. cbv zeta.
-  rewrite (Nat.eqb_sym i y).
-  destruct (Nat.eqb y i); auto_derive; auto; ring.
-Qed.
-
-(* ------------------------------------------------------------------ cross-entropy *)
-Lemma cross_entropy_math n x y : (1 <= n)%nat -> cross_entropy_loss_forward n x y = ln (expsum n x) - x y.
-Proof.
-  intros Hn. unfold cross_entropy_loss_forward, nll_loss_forward. cbv zeta.
-  rewrite log_softmax_math by exact Hn. ring.
-Qed.
-
-Lemma cross_entropy_vjp_proof : forall n x (y : nat) (g : R) i, (1 <= n)%nat -> (i < n)%nat -> (y < n)%nat ->
-  is_derive (fun t => g * cross_entropy_out n (vpert x i t) y) 0 (cross_entropy_grad_y_pred n x y g i).
-Proof.
-  intros n x y g i Hn Hi Hy.
-  pose proof (expsum_pos n x Hn) as HS.
-  set (S := expsum n x) in *.
-  apply (is_derive_ext
-    (fun t => g * (ln (S + exp (x i) * (exp t - 1)) - (x y + (if Nat.eqb y i then t else 0))))).
-  { intros t. unfold cross_entropy_out. cbv zeta. rewrite cross_entropy_math by exact Hn.
-    rewrite expsum_vpert by exact Hi. fold S. unfold vpert.
-    destruct (Nat.eqb y i); [reflexivity|rewrite Rplus_0_r; reflexivity]. }
-  unfold cross_entropy_grad_y_pred, cross_entropy_loss_backward. cbv zeta.
-  rewrite softmax_math by exact Hn. fold S.
-  rewrite (Nat.eqb_sym i y).
-  destruct (Nat.eqb y i) eqn:E.
-  - auto_derive.
-    + rewrite exp_0. lra.
-    + rewrite exp_0. field. lra.
-  - auto_derive.
-    + rewrite exp_0. lra.
-    + rewrite exp_0. field. lra.
-Qed.
-
-(* ------------------------------------------------------------------ C14: fused = composition *)
-Lemma cross_entropy_is_nll_log_softmax_proof : forall n x y,
-  cross_entropy_out n x y = nll_loss_out n (log_softmax_out n x) y.
-Proof. reflexivity. Qed.
-
-(* gradient side: the fused backward equals the chained backwards of nll and log_softmax *)
-Lemma cross_entropy_backward_is_composition_proof : forall n x y g i, (1 <= n)%nat -> (y < n)%nat -> (i < n)%nat ->
-  cross_entropy_grad_y_pred n x y g i =
-  log_softmax_grad_x n x (nll_loss_grad_y_pred n (log_softmax_out n x) y g) i.
-Proof.
-  intros n x y g i Hn Hy Hi.
-  pose proof (expsum_pos n x Hn) as HS.
-  unfold cross_entropy_grad_y_pred, cross_entropy_loss_backward, log_softmax_grad_x, log_softmax_backward,
-    nll_loss_grad_y_pred, nll_loss_backward, log_softmax_out. cbv zeta.
-  rewrite (vsum_ext n _ (fun j => if Nat.eqb j y then (fun _ => g * (- 1)) j else 0)).
-  2:{ intros j _. destruct (Nat.eqb j y); ring. }
-  rewrite vsum_onehot by exact Hy.
-  rewrite softmax_math, log_softmax_math by exact Hn.
-  fold (expsum n x). rewrite exp_minus_ln by exact HS.
-  destruct (Nat.eqb i y); field; lra.
-Qed.
-
-Lemma log_softmax_is_log_of_softmax_proof : forall n x j, (1 <= n)%nat ->
-  log_softmax_out n x j = ln (softmax_out n x j).
-Proof.
-  intros n x j Hn. unfold log_softmax_out, softmax_out. cbv zeta.
-  rewrite softmax_math, log_softmax_math by exact Hn.
-  pose proof (expsum_pos n x Hn) as HS.
-  unfold Rdiv. rewrite ln_mult; [|apply exp_pos|apply Rinv_0_lt_compat; exact HS].
-  rewrite ln_exp, ln_Rinv by exact HS. ring.
-Qed.
-
-(* the library's log op computes ln(. + epsilon) *)
-Lemma epsilon_pos : 0 < epsilon.
-Proof. unfold epsilon. lra. Qed.
-
-Lemma ln_eps_bound_proof : forall p e, 0 < p -> 0 <= e -> 0 <= ln (p + e) - ln p <= e / p.
-Proof.
-  intros p e Hp He.
-  assert (Hq : p + e = p * (1 + e / p)) by (field; lra).
-  assert (H0 : 0 <= e / p) by (apply Rmult_le_pos; [exact He|left; apply Rinv_0_lt_compat; exact Hp]).
-  rewrite Hq, ln_mult by lra.
-  destruct H0 as [H0|H0].
-  - assert (Hne : e / p <> 0) by lra. pose proof (exp_ineq1 (e / p) Hne) as Hx.
-    assert (ln (1 + e / p) < e / p).
-    { rewrite <- (ln_exp (e / p)) at 2. apply ln_increasing; lra. }
-    assert (0 < ln (1 + e / p)) by (rewrite <- ln_1; apply ln_increasing; lra).
-    lra.
-  - rewrite <- H0, Rplus_0_r, ln_1. lra.
-Qed.
-
-Lemma log_of_softmax_eps_bound_proof : forall n x j, (1 <= n)%nat ->
-  0 <= log_forward (softmax_out n x j) - log_softmax_out n x j <= epsilon / softmax_out n x j.
-Proof.
-  intros n x j Hn. rewrite log_softmax_is_log_of_softmax_proof by exact Hn.
-  unfold log_forward. apply ln_eps_bound_proof; [|left; apply epsilon_pos].
-  unfold softmax_out. cbv zeta. rewrite softmax_math by exact Hn.
-  apply Rdiv_lt_0_compat; [apply exp_pos|apply expsum_pos; exact Hn].
-Qed.
-
 (* ------------------------------------------------------------------ C09: the mechanism over R *)
 Section NoOverflow.
 Variables (n : nat) (x : vec).
@@ -376,13 +276,6 @@ Proof.
           | rewrite Rabs_right by (left; apply exp_pos); pose proof (exp_le_1 _ (shift_nonpos j Hj)); lra
           | apply Rabs_bnd in HM; apply Rabs_le; lra
           | apply Hres, Hj ].
-Qed.
-
-Lemma cross_entropy_bounds_proof y : (y < n)%nat ->
-  0 <= cross_entropy_loss_forward n x y <= 2 * B + ln (INR n).
-Proof.
-  intros Hy. unfold cross_entropy_loss_forward, nll_loss_forward. cbv zeta.
-  pose proof (log_softmax_range_proof y Hy). lra.
 Qed.
 
 End NoOverflow.
